@@ -62,13 +62,13 @@ Proof. repeat split; vm_compute; reflexivity. Qed.
    per list element, the B-tree estimate per map/set, the boxed size per Box/Rc/Arc, the length per
    string, summed over the nesting; zero for values with none of these *)
 Theorem C12_tracked_usage_closed_form : forall t v bs known rest,
-  nobits t = true -> wf_ty t = true -> wf t v = true -> enc_spec t v = EOk bs -> ann t v <= usize_max ->
+  wf_ty t = true -> wf t v = true -> enc_spec t v = EOk bs -> ann t v <= usize_max ->
   used_after 0 (snd (runt (dec t) known (bs ++ rest))) = ann t v.
 Proof. exact tracked_usage_is_closed_form. Qed.
 
 (* hence the threshold of memory-limited decoding of an encoding is that closed form *)
 Theorem C12_limit_on_encodings : forall t v bs known rest L,
-  nobits t = true -> wf_ty t = true -> wf t v = true -> enc_spec t v = EOk bs -> ann t v <= usize_max ->
+  wf_ty t = true -> wf t v = true -> enc_spec t v = EOk bs -> ann t v <= usize_max ->
   (ann t v < L -> exists u, run (memmon L) (dec t) known (bs ++ rest) 0 = ROk (canon t v) rest u) /\
   (0 < ann t v -> L <= ann t v -> exists u, run (memmon L) (dec t) known (bs ++ rest) 0 = RErr u).
 Proof. exact mem_limit_on_encodings. Qed.
@@ -81,7 +81,7 @@ Proof. exact (proj1 payload_within_twice_announced). Qed.
 Example C12_value_nonvacuous :
   let t := TPair (TColl CVec 16 (TBox 8 (TPrim 8))) (TPair (TColl CMap 192 (TPair (TPrim 1) (TPair (TPrim 1) TUnit))) (TPair TStr TUnit)) in
   let v := VPair (VSeq [VN 1; VN 2]) (VPair (VSeq [VPair (VN 1) (VPair (VN 7) VUnit)]) (VPair (VSeq [VN 104; VN 105]) VUnit)) in
-  nobits t = true /\ wf_ty t = true /\ wf t v = true /\
+  wf_ty t = true /\ wf t v = true /\
   (exists bs, enc_spec t v = EOk bs) /\ ann t v = 2 * 16 + 2 * 8 + 192 + 2 /\ payload t v = 2 * 16 + 2 * 8 + 17 + 2.
 Proof. repeat split; try (vm_compute; reflexivity). eexists. vm_compute. reflexivity. Qed.
 
